@@ -153,6 +153,46 @@ pub fn run_scenario(id: &str, sc: &Value, fail_at: usize, mode: FaultMode) -> Ou
             });
             finish(r, rw)
         }
+        "encode-multi" => {
+            // the channel-count arms of the frame encoder (1 / 2 / 3..8 channels) through the sample and the per-channel front ends
+            let ch = sc["ch"].as_u64().unwrap_or(3) as usize;
+            let bps = sc["bps"].as_u64().unwrap_or(16) as u32;
+            let declared = sc["declared"].as_bool().unwrap_or(false);
+            let opts = build_options(&sc["opts"]).unwrap();
+            let mut rng = Rng::new(5050 + ch as u64);
+            let pcm = gen_pcm(sc["signal"].as_str().unwrap_or("walk"), &mut rng, ch, bps, 40);
+            let mut rw = FaultyRW::new(vec![], fail_at, mode, false, true);
+            let r = catch(|| -> Result<Vec<u8>, String> {
+                if sc["fe"].as_str() == Some("channel") {
+                    let chans: Vec<Vec<i32>> = (0..ch).map(|c| pcm.iter().skip(c).step_by(ch).copied().collect()).collect();
+                    let mut w = FlacChannelWriter::new(&mut rw, opts, 44100, bps, ch as u8, declared.then_some(40)).map_err(|e| e.to_string())?;
+                    w.write(chans.iter().map(|c| &c[..23]).collect::<Vec<_>>()).map_err(|e| e.to_string())?;
+                    w.write(chans.iter().map(|c| &c[23..]).collect::<Vec<_>>()).map_err(|e| e.to_string())?;
+                    w.finalize().map_err(|e| e.to_string())?;
+                } else {
+                    let mut w = FlacSampleWriter::new(&mut rw, opts, 44100, bps, ch as u8, declared.then_some(pcm.len() as u64)).map_err(|e| e.to_string())?;
+                    w.write(&pcm[..17 * ch]).map_err(|e| e.to_string())?;
+                    w.write(&pcm[17 * ch..]).map_err(|e| e.to_string())?;
+                    w.finalize().map_err(|e| e.to_string())?;
+                }
+                Ok(vec![])
+            });
+            finish(r, rw)
+        }
+        "stream-multi" => {
+            let mut rw = FaultyRW::new(vec![], fail_at, mode, false, true);
+            let r = catch(|| -> Result<Vec<u8>, String> {
+                let fast = sc["fast"].as_bool().unwrap_or(false);
+                let mut w = FlacStreamWriter::new(&mut rw, if fast { Options::fast() } else { Options::default() });
+                for (ch, bps, n) in [(1usize, 16u32, 20usize), (3, 16, 18), (2, 24, 16), (6, 8, 17), (8, 20, 16)] {
+                    let mut rng = Rng::new(6060 + ch as u64);
+                    let pcm = gen_pcm("walk", &mut rng, ch, bps, n);
+                    w.write(44100, ch as u8, bps, &pcm).map_err(|e| e.to_string())?;
+                }
+                Ok(vec![])
+            });
+            finish(r, rw)
+        }
         "stream" => {
             let pcm = pcm40();
             let mut rw = FaultyRW::new(vec![], fail_at, mode, false, true);
